@@ -330,6 +330,13 @@ pub fn run_check(prop: &Prop, tier: Tier) -> i32 {
     for (_, st) in &merged {
         total.merge(st);
     }
+    let mach: Vec<String> = total.notes.keys().filter(|k| k.starts_with("MACHINERY")).cloned().collect();
+    if !mach.is_empty() {
+        for m in mach {
+            println!("MACHINERY-ERROR: {}", m);
+        }
+        return 2;
+    }
     let mut exit = 0;
     // known findings: one line per key
     let mut known_lines = Vec::new();
